@@ -125,10 +125,10 @@ M = [
   "impl<'tx> Drop for TxInner<'tx> {\n    fn drop(&mut self) {\n        if !self.lock.writable() {",
   "impl<'tx> Drop for TxInner<'tx> {\n    fn drop(&mut self) {\n        if self.lock.writable() {\n            if let Ok(mut l) = self.db.inner.freelist.lock() {\n                *l = self.freelist.borrow().inner.clone();\n            }\n        }\n        if !self.lock.writable() {",
   ["C06", "C05", "C10"], "a dropped write transaction leaks its free-list changes into the shared free list"),
- ("split-threshold-4096", "src/node.rs",
-  "        let threshold = ((self.pagesize as f32) * FILL_PERCENT) as u64;",
-  "        let threshold = if self.pagesize == 4096 { self.pagesize * 2 } else { ((self.pagesize as f32) * FILL_PERCENT) as u64 };",
-  ["C16"], "at one page size nodes are never split where they should be"),
+ ("run-length-floor-at-5000", "src/freelist.rs",
+  "            (bytes / self.meta.pagesize) + 1\n        };",
+  "            (bytes / self.meta.pagesize) + (self.meta.pagesize != 5000 || bytes > 3 * self.meta.pagesize) as u64\n        };",
+  ["C16"], "at page size 5000 a node between one and three pages long gets one page too few"),
 ]
 
 
